@@ -94,6 +94,17 @@ def check_rt(recipe) -> list[Fail]:
                     _cmp_geom(obj.atoms, obj.coords[i], f, fails, "ens", f"frame {i}")
                     if fails:
                         break
+        elif kind == "Substructure":
+            # a view over some atoms of a molecule, in an order of its own: what is written is the view (its atoms, their coordinates)
+            parent = chem.build_molecule(r, ml.Molecule)
+            n = parent.n_atoms
+            idx = list(dict.fromkeys(i % n for i in recipe["sub"])) if n else []
+            if not idx:
+                return []
+            sub = parent.substructure(idx)
+            text = sub.dumps_xyz()
+            back = ml.CartesianGeometry.loads_xyz(text)
+            _cmp_geom([parent.atoms[i] for i in idx], np.asarray(parent.coords, dtype=float)[idx], back, fails, "view", f"view {idx} of {n} atoms")
         else:
             cls = {"CartesianGeometry": ml.CartesianGeometry, "Structure": ml.Structure, "Molecule": ml.Molecule}[kind]
             if kind == "CartesianGeometry":
@@ -243,6 +254,7 @@ def strat_rt(tier):
     return st.one_of(
         st.fixed_dictionaries({"kind": st.sampled_from(["CartesianGeometry", "Structure", "Molecule"]), "mol": molr, "entry": st.sampled_from(["loads", "loads", "load_stream", "loads_all"]), "fmt": st.integers(0, len(FMTS) - 1), "again": st.booleans()}),
         st.fixed_dictionaries({"kind": st.just("ConformerEnsemble"), "mol": ensr, "entry": st.sampled_from(["ens", "ens", "all_mol", "all_geom", "all_stream"])}),
+        st.fixed_dictionaries({"kind": st.just("Substructure"), "mol": molr, "entry": st.just("loads"), "sub": st.lists(st.integers(0, 60), min_size=1, max_size=8)}),
     )
 
 
